@@ -1,5 +1,7 @@
 /* type environment + ghost state for unit timer_service (TimerService::collectDueLocked / cancel / heap ops).
  * steady_clock::time_point and duration are int64_t counts; Handler (type-erased callable) is an opaque identity. */
+#define IORA_NS_PER_MS 1000000
+#define IORA_NS_PER_US 1000
 typedef struct { int64_t tp; uint64_t handler; bool canceled; } Record;
 typedef struct { int64_t tp; uint64_t id; } HeapItem;
 typedef struct { uint64_t id; int64_t interval; int64_t nextExecution; bool canceled; uint64_t handler; } PeriodicTimer;
